@@ -6,6 +6,7 @@ set -u
 export CARGO_TARGET_DIR=/tmp/seedtarget CARGO_NET_OFFLINE=true
 W=${W:-/tmp/wt-val}
 [ -d $W ] || git -C /repo worktree add -f $W HEAD >/dev/null 2>&1
+git -C $W checkout -q --detach $(git -C /repo rev-parse HEAD) 2>/dev/null
 for P in "$@"; do
   S=/verif/seeded/$P
   cd $W && git reset -q --hard HEAD && git clean -qfd src
